@@ -31,7 +31,7 @@ def define_case(batch: CoqBatch, i: int, N: Names, g, run):
     if eff == "**":
         eff = None
     batch.add_def(i, "sel", c_opt(eff, lambda s: c_list([c_pos(N(x)) for x in s])), "option (list name)")
-    fuel = run.get("max_iterations") or 1000
+    fuel = run.get("max_iterations") if run.get("max_iterations") is not None else 1000
     batch.add_def(i, "fuel", c_nat(fuel))
     runner = "Sync" if run.get("runner", "sync") == "sync" else "Async"
     d = pdl.graph_depth(g) + 1
